@@ -280,6 +280,8 @@ def common(pid, ctx, sub):
             ctx.failing_inputs.append(l)
         if l.get("kind") == "stat":
             ctx.stats = l["stats"]
+        if l.get("kind") == "note":
+            ctx.notes.append(l)
     ctx.check_theorems("Properties/%s.v" % pid)
     cases, descs, nshards, bad = generate(pid, ctx, lines)
     nsteps = sum(len(c["steps"]) for c in cases)
